@@ -402,6 +402,10 @@ def run(tier, seed):
                 dyadic = abs(frame * 1024 - round(frame * 1024)) < 1e-12
                 horizon = (30.0 if tier == "quick" else 120.0) if dyadic else (20.0 if tier == "quick" else 60.0)
                 idle_jobs.append((ka, tconn, frame, horizon))
+    # owners that call update ~1000 times per second (dyadic 1/1024 s frames close into a cycle, 1 ms frames run to a horizon):
+    # only the protocol's own send-rate cap and keep-alive timer pace the traffic
+    for ka, tconn, frame in ((0.1, 1.0, 1.0 / 1024), (0.05, 1.0, 1.0 / 1024), (0.1, 5.0, 0.001), (0.5, 1.0, 0.001)):
+        idle_jobs.append((ka, tconn, frame, 8.0 if tier == "quick" else 30.0))
     # one-way delays above the keep-alive interval (but round trip below every timeout): 0.31 s and 0.19 s
     for ka, tconn, frame, lat in ((0.1, 1.0, 1.0 / 64, 20), (0.05, 1.0, 1.0 / 64, 12), (0.1, 5.0, 1.0 / 32, 10), (0.5, 5.0, 1.0 / 64, 40)):
         idle_jobs.append((ka, tconn, frame, 30.0 if tier == "quick" else 120.0, lat))
